@@ -99,10 +99,37 @@ theorem alloc_spec {h : Heap} {p T : List Val} (i : Inv h (p ++ T)) :
   · have : ¬ h.allocs.length = k := fun x => e x.symm
     simp [e, this]; omega
 
+theorem alloc_keys (h : Heap) (p : List Val) : keysOf (alloc h p).1 (alloc h p).2 = none := by
+  simp [alloc, keysOf_push]
+
 theorem alloc_rep {h : Heap} {p T : List Val} {ts : List Tree} (i : Inv h (p ++ T)) (a : All2 (Rep h) p ts) :
     Rep (alloc h p).1 (.ref (alloc h p).2) (.list ts) := by
   obtain ⟨_, e, hp, hl⟩ := alloc_spec i
-  apply Rep_ref_list hl
+  apply Rep_ref_list hl (alloc_keys h p)
+  rw [hp]
+  exact All2.mono (fun _ _ _ r => r.ext e) a
+
+theorem allocDict_spec {h : Heap} {p T : List Val} (ks : List Int) (i : Inv h (p ++ T)) :
+    Inv (allocDict h ks p).1 (.ref (allocDict h ks p).2 :: T) ∧ PayloadExt h (allocDict h ks p).1 ∧
+    payloadOf (allocDict h ks p).1 (allocDict h ks p).2 = p ∧
+    keysOf (allocDict h ks p).1 (allocDict h ks p).2 = some ks ∧
+    (allocDict h ks p).2 < (allocDict h ks p).1.allocs.length := by
+  refine ⟨fun k => ?_, PayloadExt.push _ _ _ _, by simp [allocDict, payloadOf_push],
+    by simp [allocDict, keysOf_push], by simp [allocDict]⟩
+  have hk := i k
+  simp only [allocDict, pocc_push, rcOf_push, occ_cons_ref, occ_append] at hk ⊢
+  by_cases e : k = h.allocs.length
+  · subst e
+    rw [rcOf_eq_zero_of_ge (Nat.le_refl _)] at hk
+    simp; omega
+  · have : ¬ h.allocs.length = k := fun x => e x.symm
+    simp [e, this]; omega
+
+theorem allocDict_rep {h : Heap} {p T : List Val} {vs : List Tree} (ks : List Int) (i : Inv h (p ++ T))
+    (hlen : ks.length = vs.length)
+    (a : All2 (Rep h) p vs) : Rep (allocDict h ks p).1 (.ref (allocDict h ks p).2) (.dict ks vs) := by
+  obtain ⟨_, e, hp, hk, hl⟩ := allocDict_spec ks i
+  apply Rep_ref_dict hl hk hlen
   rw [hp]
   exact All2.mono (fun _ _ _ r => r.ext e) a
 
@@ -122,6 +149,12 @@ theorem evalRhs_spec {s : State} {T : List Val} {σ : List Tree} (r : Rhs)
       simpa [List.append_assoc] using i1
     obtain ⟨i2, e2, _, _⟩ := alloc_spec i1'
     exact ⟨by simpa [evalRhs] using i2, (e1.trans e2).stable _, alloc_rep i1' r1⟩
+  | dict kvs =>
+    obtain ⟨i1, e1, r1⟩ := evalAtoms_spec (σ := σ) (kvs.map (·.2)) (T := T) i sim
+    have i1' : Inv (evalAtoms s s.h (kvs.map (·.2))).1 ((evalAtoms s s.h (kvs.map (·.2))).2 ++ (T ++ s.cells)) := by
+      simpa [List.append_assoc] using i1
+    obtain ⟨i2, e2, _, _⟩ := allocDict_spec (kvs.map (·.1)) i1'
+    exact ⟨by simpa [evalRhs] using i2, (e1.trans e2).stable _, allocDict_rep _ i1' (by simp) r1⟩
   | rep a n =>
     obtain ⟨i1, e1, r1⟩ := evalAtom_spec (T := T) a i sim
     -- the one-element list
@@ -150,7 +183,7 @@ theorem evalRhs_spec {s : State} {T : List Val} {σ : List Tree} (r : Rhs)
     · exact (e04.stable _).trans (D.stable.mono (by intro v hv; simp [hv]))
     · simp only [evalRhs, Store.evalRhs]
       refine D.stable.rep (.root (by simp)) ?_
-      apply Rep_ref_list hl4
+      apply Rep_ref_list hl4 (alloc_keys _ _)
       rw [hp4]
       exact All2.replicate n (r1.ext ((e2.trans (PayloadExt.bumpAll _ _)).trans e4))
 
